@@ -32,6 +32,7 @@ func loadAll(repo string) (*Gen, error) {
 			return nil, err
 		}
 	}
+	g.specs.PurePkgs["$purevar"] = true
 	g.inferPure()
 	return g, nil
 }
